@@ -297,6 +297,11 @@ def main():
     fns = translate.translate_all(os.environ.get("JS_REPO", "/repo"))
     fns2 = translate.translate_all2(os.environ.get("JS_REPO", "/repo"))
     changed = write_if_changed(os.path.join(OUT, "Source.lean"), translate.render(fns, fns2))
+    import translate_methods
+    meths = translate_methods.translate_all(os.environ.get("JS_REPO", "/repo"))
+    changed_m = write_if_changed(os.path.join(OUT, "MethodSource.lean"), translate_methods.render(meths))
+    print("regen: MethodSource.lean %s (%s)" % ("rewritten" if changed_m else "unchanged",
+                                                ", ".join("%s%s" % (n, " UNSUPPORTED" if t.startswith(".unsupported") else "") for n, t in meths)))
     import translate_types
     preds = translate_types.translate_all(os.environ.get("JS_REPO", "/repo"))
     changed_t = write_if_changed(os.path.join(OUT, "TypeSource.lean"), translate_types.render(preds))
